@@ -27,7 +27,7 @@ def showNack : Nack → String
   | .tlslayer => "tlslayer"
 
 def showOut : Out → Option String
-  | .tx _ v _ => some ("tx:" ++ showView v)
+  | .tx _ v _ _ => some ("tx:" ++ showView v)
   | .req t p => some s!"req:{t}:{p}"
   | .rsp t c => some s!"rsp:{t}:{c}"
   | .nack r t _ => some s!"nack:{showNack r}:{t.getD "-"}"
@@ -183,6 +183,7 @@ def runEvent (tb : Tab) (who : String) (ev : List String) (orc : List Orc) : Opt
   | ["tmo"] => viaStep .tlsTimeout
   | ["rtx", mid] => mid.toNat?.bind fun m => viaStep (.retransmit m)
   | ["rel"] => viaStep .release
+  | ["icmp"] => viaStep (.appDisconnect .icmp)      -- coap_session_disconnected(session, COAP_NACK_ICMP_ISSUE)
   | ["del"] => viaStep .del
   | ["free"] =>
     -- coap_free_context: queue nodes go first (no NACK), then every session
@@ -258,6 +259,7 @@ def parseCfg : List String → Cfg → Option Cfg
       | "f" => parseCfg rest cfg
       | "inj" => parseCfg rest cfg
       | "rel" => parseCfg rest cfg
+      | "icmp" => parseCfg rest cfg
       | "idle" => parseCfg rest cfg
       | "conn" => parseCfg rest cfg
       | "acc" => parseCfg rest cfg
